@@ -65,13 +65,31 @@ def check(case, res):
       res.nt_keys.append("%s@%s" % (h, t))
   res.stats = stats
   wm = {n["styles"].get("WritingMode") for n in spec["regions"]}
+  if spec["initials"].get("Direction") is not None and spec["initials"]["Direction"].name == "rtl" and any(
+      n["styles"].get("WritingMode") is not None and n["styles"]["WritingMode"].name == "lrtb" and "Direction" not in n["styles"]
+      for n in spec["regions"]):
+    res.label("lrtb-region-under-initial-direction-rtl")
   res.label(*["wm:" + w.name for w in wm if w is not None])
   res.label("cell:%dx%d" % tuple(spec["cell"]) if tuple(spec["cell"]) in ((32, 15), (40, 23), (1, 1), (52, 19)) else "cell:random")
 
 
+def lrtb_under_rtl_initial(spec, on):
+  """a region that specifies tts:writingMode lrtb (and no direction) in a document whose initial tts:direction is rtl: the region's
+  direction is the one its writing mode implies, not the document's initial value"""
+  if not on or not spec["regions"]:
+    return spec
+  import ttconv.style_properties as s
+  spec["initials"]["Direction"] = s.DirectionType.rtl
+  r = spec["regions"][on % len(spec["regions"])]
+  r["styles"]["WritingMode"] = s.WritingModeType.lrtb
+  r["styles"].pop("Direction", None)
+  r["anims"] = [a for a in r["anims"] if a[0] not in ("Direction", "WritingMode")]
+  return spec
+
+
 def cases(tier):
-  return st.builds(lambda spec, extra: {"spec": spec, "extra": extra}, gen_model.docspecs(HEAVY),
-                   st.lists(st.fractions(0, 12, max_denominator=97), max_size=1))
+  return st.builds(lambda spec, extra, lr: {"spec": lrtb_under_rtl_initial(spec, lr), "extra": extra}, gen_model.docspecs(HEAVY),
+                   st.lists(st.fractions(0, 12, max_denominator=97), max_size=1), st.sampled_from([0, 0, 0, 0, 0, 0, 0, 1, 2, 3]))
 
 
 def finish(ctx):
@@ -96,5 +114,5 @@ def finish(ctx):
 
 PARTS = {
   "main": Part("main", check, strategy=cases, n=(1600, 64000), shrinker=SHRINK,
-               required_labels=("wm:tbrl", "wm:rltb", "cell:random")),
+               required_labels=("wm:tbrl", "wm:rltb", "cell:random", "lrtb-region-under-initial-direction-rtl")),
 }
